@@ -130,7 +130,7 @@ def conds(tier):
                     "created inside a task and waited for at top level", encodes=core.ENC_SCHED))
     out.append(Cond("hist_stack", mk_hist_stack(), [I("depth", 0, 5), I("limit", 0, 5), I("side", 0, 1), I("v")], pin=1,
                     budget=100, family="F-HIST [MAX_TASK_STACK_SIZE RuntimeError, canary]", encodes=core.ENC_SCHED))
-    out.append(Cond("tree", core.mk_tree(P, 3, 2, 2), core.tree_params(3, 2, 2), pin=3, budget=120,
+    out.append(Cond("tree", core.mk_tree(P, 3, 2, 2), core.tree_params(3, 2, 2), builds=("C", "P"), pin=3, budget=120,
                     family="F-TREE(3,2,2)", encodes=core.ENC_SCHED))
     out.append(core.dagsync_cond("dagsync", P))
     if not q:
